@@ -280,10 +280,10 @@ def r6_masking_cursor(ctx, rep):
 
 
 RULES = [
-    RuleSpec("C02.R6", r6_masking_cursor, "masking loops advance past the placeholder (shared with C20.R4)", floor=4),
-    RuleSpec("C02.R1", r1_comment_recogniser, "comment recogniser == Fortran comment rule", floor=12),
-    RuleSpec("C02.R2", r2_literal_recogniser, "literal recogniser", floor=2),
-    RuleSpec("C02.R3", r3_scanners, "character scanners == reference automaton", floor=3),
-    RuleSpec("C02.R4", r4_masking, "masking dominates dispatch; case folding after masking", floor=5),
-    RuleSpec("C02.R5", r5_continuation, "continuation joining removes exactly the & characters", floor=5),
+    RuleSpec("C02.R6", r6_masking_cursor, "masking loops advance past the placeholder (shared with C20.R4)", floor=2),
+    RuleSpec("C02.R1", r1_comment_recogniser, "comment recogniser == Fortran comment rule", floor=6),
+    RuleSpec("C02.R2", r2_literal_recogniser, "literal recogniser", floor=1),
+    RuleSpec("C02.R3", r3_scanners, "character scanners == reference automaton", floor=1),
+    RuleSpec("C02.R4", r4_masking, "masking dominates dispatch; case folding after masking", floor=2),
+    RuleSpec("C02.R5", r5_continuation, "continuation joining removes exactly the & characters", floor=3),
 ]
